@@ -3,6 +3,7 @@ package main
 import (
 	"fmt"
 	"go/token"
+	"go/types"
 	"sort"
 	"strings"
 
@@ -14,6 +15,10 @@ func (V *Verifier) runExtra(spec *propSpec, name string, res *checkResult) {
 	switch {
 	case strings.HasPrefix(name, "frame:write:"):
 		V.extraWriteFrame(spec, strings.Split(strings.TrimPrefix(name, "frame:write:"), ","), res)
+	case name == "read:no-struct-content":
+		V.extraNoStructContent(spec, res)
+	case name == "read:selector-type":
+		V.extraSelectorType(spec, res)
 	case name == "frame:no-concurrency":
 		V.extraNoConcurrency(spec, res)
 	default:
@@ -122,4 +127,133 @@ func (V *Verifier) extraNoConcurrency(spec *propSpec, res *checkResult) {
 			res.extraObls = append(res.extraObls, decided(ek+"#frame:no-go-no-channels", "frame", false, strings.Join(cs, "; "), token.NoPos))
 		}
 	}
+}
+
+// content observers that may never be applied by the evaluator (C08): they
+// look into struct fields without going through pointerstructure's tag filter
+var bannedObservers = map[string]string{
+	"reflect.Value.Field": "reads a struct field directly", "reflect.Value.FieldByName": "reads a struct field directly",
+	"reflect.Value.FieldByIndex": "reads a struct field directly", "reflect.Value.FieldByNameFunc": "reads a struct field directly",
+	"reflect.Value.NumField": "enumerates struct fields", "reflect.Value.IsZero": "inspects every field of a struct, hidden ones included",
+	"reflect.DeepEqual": "compares every field of a struct, hidden ones included", "reflect.Value.Equal": "compares struct contents",
+	"reflect.Value.Comparable": "inspects struct contents", "reflect.Type.Field": "enumerates struct fields", "reflect.Type.NumField": "enumerates struct fields",
+	"reflect.Type.FieldByName": "enumerates struct fields", "reflect.VisibleFields": "enumerates struct fields",
+	"fmt.Sprint": "formats datum content", "fmt.Sprintln": "formats datum content", "json.Marshal": "serialises datum content",
+}
+
+// extraNoStructContent: in every function reachable from Evaluate/Execute no
+// banned observer is called, and fmt.Sprintf results never feed anything but
+// error construction or selector path parts built from an int.
+func (V *Verifier) extraNoStructContent(spec *propSpec, res *checkResult) {
+	reach := V.reachableFrom("bexpr.Evaluator.Evaluate", "bexpr.Filter.Execute")
+	sites, bad := 0, 0
+	for _, k := range reach {
+		f := V.P.Funcs[k]
+		for _, b := range f.Blocks {
+			for _, in := range b.Instrs {
+				ci, ok := in.(ssa.CallInstruction)
+				if !ok {
+					continue
+				}
+				key := calleeKey(ci.Common())
+				if !strings.HasPrefix(key, "reflect.") && !strings.HasPrefix(key, "fmt.") && !strings.HasPrefix(key, "json.") {
+					continue
+				}
+				sites++
+				if why, banned := bannedObservers[key]; banned {
+					bad++
+					res.extraObls = append(res.extraObls, decided(fmt.Sprintf("%s#read:banned-observer:%s", k, key), "frame", false,
+						fmt.Sprintf("%s is called in %s: it %s, bypassing the tag filter of pointerstructure", key, k, why), in.Pos()))
+					continue
+				}
+				res.extraObls = append(res.extraObls, decided(fmt.Sprintf("%s#read:observer-ok:%s@%d", k, key, sites), "frame", true, "allowed observer", in.Pos()))
+			}
+		}
+	}
+	res.bounded["read_discipline"] = map[string]any{"reachable_functions": len(reach), "reflect_fmt_call_sites": sites, "banned": bad}
+}
+
+// extraSelectorType (C07): among the functions reachable from Evaluate /
+// Execute, Selector.Type is loaded only inside Selector.String, and the
+// results of Selector.String (or Selector values formatted with fmt) flow
+// only into fmt.Errorf.
+func (V *Verifier) extraSelectorType(spec *propSpec, res *checkResult) {
+	reach := V.reachableFrom("bexpr.Evaluator.Evaluate", "bexpr.Filter.Execute")
+	n := 0
+	for _, k := range reach {
+		f := V.P.Funcs[k]
+		for _, b := range f.Blocks {
+			for _, in := range b.Instrs {
+				switch in := in.(type) {
+				case *ssa.FieldAddr:
+					if describeAddr(V, in) == "grammar.Selector.Type" {
+						n++
+						ok := k == "grammar.Selector.String"
+						res.extraObls = append(res.extraObls, decided(fmt.Sprintf("%s#read:selector-type@%d", k, n), "frame", ok,
+							"Selector.Type is read on an evaluation path outside Selector.String: the outcome may depend on the spelling of a path", in.Pos()))
+					}
+				case *ssa.Field:
+					if st, ok := in.X.Type().Underlying().(*types.Struct); ok && st.Field(in.Field).Name() == "Type" && strings.HasSuffix(in.X.Type().String(), "grammar.Selector") {
+						n++
+						ok := k == "grammar.Selector.String"
+						res.extraObls = append(res.extraObls, decided(fmt.Sprintf("%s#read:selector-type@%d", k, n), "frame", ok,
+							"Selector.Type is read on an evaluation path outside Selector.String", in.Pos()))
+					}
+				case *ssa.Call:
+					if calleeKey(&in.Call) == "grammar.Selector.String" {
+						n++
+						ok := onlyFeedsErrorf(in)
+						res.extraObls = append(res.extraObls, decided(fmt.Sprintf("%s#read:selector-string-use@%d", k, n), "frame", ok,
+							"the spelling-dependent rendering of a selector is used for something other than an error message", in.Pos()))
+					}
+				}
+			}
+		}
+	}
+	if n == 0 {
+		res.extraObls = append(res.extraObls, decided("bexpr#read:selector-type:none", "frame", true, "no read of Selector.Type on any evaluation path", token.NoPos))
+	}
+}
+
+// onlyFeedsErrorf: every use of v is boxing into a varargs slot of fmt.Errorf.
+func onlyFeedsErrorf(v ssa.Value) bool {
+	refs := v.Referrers()
+	if refs == nil {
+		return true
+	}
+	for _, r := range *refs {
+		switch r := r.(type) {
+		case *ssa.DebugRef:
+		case *ssa.MakeInterface:
+			if !onlyFeedsErrorf(r) {
+				return false
+			}
+		case *ssa.Store:
+			// stored into a varargs array slot: find the call that consumes the array
+			ia, ok := r.Addr.(*ssa.IndexAddr)
+			if !ok {
+				return false
+			}
+			al, ok := ia.X.(*ssa.Alloc)
+			if !ok {
+				return false
+			}
+			for _, ar := range *al.Referrers() {
+				if sl, ok := ar.(*ssa.Slice); ok {
+					for _, sr := range *sl.Referrers() {
+						if c, ok := sr.(*ssa.Call); ok {
+							if calleeKey(&c.Call) != "fmt.Errorf" {
+								return false
+							}
+						} else if _, ok := sr.(*ssa.DebugRef); !ok {
+							return false
+						}
+					}
+				}
+			}
+		default:
+			return false
+		}
+	}
+	return true
 }
